@@ -9,6 +9,9 @@ from ..runner import Exploration, Failure
 
 
 
+KNOWN_EMBED_AUTO_SIG = 'C13.nested.embed.nested-auto-transitions-copied'
+
+
 def fingerprint(case):
     return hashlib.sha1(json.dumps([case['ops'], case['history'], case['opts']], sort_keys=True).encode()).hexdigest()[:16]
 
@@ -203,6 +206,11 @@ def hjudge(case, vs, runs, intros):
             continue
         sig = None
         if intros[0] != intros[i]:
+            # open finding F-C13-embedded-nested-auto-transitions: an embedded machine with auto transitions and
+            # nested states, and nothing differs but local to_<…> events
+            if (hsm13.embeds_auto_machine_with_nested_states(case, vs[i])
+                    and hsm13.strip_local_auto(intros[0]) == hsm13.strip_local_auto(intros[i])):
+                sig = KNOWN_EMBED_AUTO_SIG
             fail('variant_structure', {'variant': i, 'canonical': intros[0], 'variant_machine': intros[i],
                                        'plan': vs[i]}, sig)
         if a.items != b.items or a.final() != b.final():
@@ -210,7 +218,7 @@ def hjudge(case, vs, runs, intros):
             fail('variant_trace', {'variant': i, 'first_difference_at': k,
                                    'canonical': [common.show_item(x) for x in a.items[max(0, k - 4):k + 3]],
                                    'variant_trace': [common.show_item(x) for x in b.items[max(0, k - 4):k + 3]],
-                                   'plan': vs[i]}, sig)
+                                   'plan': vs[i]})
     for i, r in enumerate(runs):
         # (argument passing on hierarchical machines is C03's business: finalize callbacks of an event that no
         # state handles see `event_data.event is None`; only unexpected state values are reported here)
